@@ -95,6 +95,12 @@ mod error;
 mod iter;
 mod mem_size;
 
+#[cfg(feature = "verif_hooks")]
+mod verif;
+
+#[cfg(feature = "verif_hooks")]
+pub use verif::{VerifBucket, VerifDump};
+
 /// An LRU (least-recently-used) cache that stores values associated with keys.
 /// Insertion, retrieval, and removal all have average-case complexity in O(1).
 /// The cache has an upper memory bound, which is set at construction time.
